@@ -166,6 +166,49 @@ def run(rep, tier):
     rep.ob(rf, "loop-head", nwr >= 1 and not bad, "writes to the frame array before the opcode dispatch",
            expected="stacks[idx].stack_usage := usage_table[pc] under idx < %d" % depth, found=sorted(set(bad)) or "%d guarded writes to slot idx" % nwr)
 
+    # R07.g the registered calculator is the one whose frame sizes are used
+    rg = rep.rule("R07.g", "frame sizes come from the registered stack-usage calculator: registering stores it (and re-validates a loaded program with it); loading a program validates with the stored one", floor=3)
+    import props.c10 as c10
+    for path in ("EbpfVmMbuff::set_stack_usage_calculator", "EbpfVmMbuff::set_program"):
+        fn = F.fns.get(path)
+        if not fn:
+            rep.ob(rg, path, False, "%s exists" % path, found="missing")
+            continue
+        ev = symex.Evaluator(F, opaque_calls=lambda p: p.endswith("stack_validate"))
+        extra = [ev.sym_for("new_" + (q["pat"]["name"] if q["pat"] and q["pat"]["k"] == "bind" else "arg%d" % i), q["ty"])
+                 for i, q in enumerate(fn["thir"]["params"][1:])]
+        key, sv, outs = c10.run_method(ev, F, path, extra)
+        base = c10.flat(sv)
+        probs, n_ok = [], 0
+        for v, st in outs:
+            if c10.result_kind(v) != "Ok":
+                continue
+            n_ok += 1
+            cur = c10.flat(st.env.get(key))
+            vals = [e for e in st.effects if e[0] == "call" and isinstance(e[1], str) and e[1].endswith("stack_validate")]
+            su = cur.get("stack_usage")
+            if path.endswith("set_stack_usage_calculator"):
+                if cur.get("stack_verifier.calculator") != symex.some(extra[0]) or cur.get("stack_verifier.data") != symex.some(extra[1]):
+                    probs.append("an Ok path does not store the new calculator and its data")
+                loaded = any(isinstance(c, tuple) and c[0] == "call" and c[1] == "is_Some" and "self.prog" in repr(c) for c in st.conds)
+                if loaded:
+                    recv_local = len(vals) == 1 and vals[0][2][0][0] == "ref" and vals[0][2][0][1][0] == "pv"
+                    if not (recv_local and "self.prog" in repr(vals[0][2][1]) and su != base.get("stack_usage") and "stack_validat" in repr(su)):
+                        probs.append("a loaded program is not re-validated with the new calculator")
+            else:
+                recv_field = len(vals) == 1 and "'stack_verifier'" in repr(vals[0][2][0]) and vals[0][2][1] == extra[0]
+                if not (recv_field and su != base.get("stack_usage") and "stack_validat" in repr(su)):
+                    probs.append("the new program's frame sizes are not computed by the stored stack verifier")
+        rep.ob(rg, path, n_ok >= 1 and not probs, "%s: Ok paths" % path,
+               expected="calculator stored / used on every Ok path", found=sorted(set(probs)) or "%d Ok paths" % n_ok)
+    wrappers = [k + "::set_stack_usage_calculator" for k in ("EbpfVmFixedMbuff", "EbpfVmRaw", "EbpfVmNoData")]
+    deleg = []
+    for w in wrappers:
+        fnw = F.fns.get(w)
+        calls = [callee_path(n) for n in walk(fnw["thir"]["body"]) if n.get("k") == "call"] if fnw else []
+        deleg.append(any((c or "").endswith("::set_stack_usage_calculator") for c in calls))
+    rep.ob(rg, "wrappers", all(deleg) and len(deleg) == 3, "the other VM kinds delegate set_stack_usage_calculator", expected=[True] * 3, found=deleg)
+
     # R07.d discriminator agreement
     rd = rep.rule("R07.d", "is-a-local-call discriminator (opc == CALL && src == 1) agrees in verifier, interpreter, JIT and stack-usage pass", floor=4)
     vm = vmodel.VerifierModel(cx)
